@@ -48,18 +48,15 @@ CHECKS = {
             "generated code via C01. Not yet proved: optimized modes (C02) - hence level 'other'. All four modes are compared with the "
             "executable L0 and with their models on stack feature groups with nested catch points.",
             "Lean 4 refinement proof (interp, gen modes; Stack via C09) + " + T_MODEL),
-    "C06": ("core", "other",
-            "Tree well-formedness invariants evaluated through the public Pair/Pairs API on every successful parse of the run in all four modes "
-            "(random and bundled grammars); exact correspondence of trees with the models; theorem spec_tree_wf in progress.", T_MODEL),
-    "C07": ("core", "other",
-            "Proved (Lean): the interpreter and generated-code models never raise anything but KeyError for an undefined rule "
-            "(interp_exc_only_undefined, gen_no_exc), and they are functions of (grammar, rule, input, start position). Not proved: termination "
-            "for well-formed grammars. Checked on the implementation: all four modes on well-formed grammars - only PestParsingError escapes, the "
-            "repeated call is equal, every parse ends within the time limit.", T_MODEL),
-    "C08": ("core", "other",
-            "Metamorphic run on the implementation: meaning-preserving rewrites (parentheses, re-association, extraction into a silent rule, e|e, "
-            "(e~NEVER)|e, (!e~NEVER)|e) at random sites of random grammars and of the bundled grammars (ASTs recovered from the real trees, "
-            "printer round-trip checked), original vs rewritten in all four modes; L0 algebra theorems in progress.", T_MODEL),
+    "C06": ("core", "proof",
+            'Theorems interp_tree_wf / gen_tree_wf (every rule table incl. optimizer-made nodes and the fused SKIP rule, every start rule, input and start position k <= len(input), fuel): every successful parse of the interpreter model L1 and of the generated-code model LG returns a GoodTree - k <= start <= end <= len(input) for every pair at every depth, children in input order, pairwise non-overlapping and inside the parent (WFForest, wf_unfolded/wf_flat), names are non-silent rules of the table or EOI (spec_names, interp_names), tags are tags written in the table (interp_tags), a non-silent start rule yields exactly one root pair starting at k (interp_root_single); and for every list of pairs tokens() is balanced with non-decreasing positions, flatten() is its pre-order (tokens_balanced, tokens_sorted, flatten_is_preorder). text == input[start:end] holds by construction (a Pair stores only start/end). The optimized modes are the same models run on the optimized rule table (the run checks SkipTotal on it through the model: evidence hyp:og:skip). L1/LG are tied to the code by exact correspondence of trees; tokensL/flattenL are tied to Pairs.tokens()/flatten() by the T request on every successful parse of the run. Not a theorem (evaluated on every successful parse of the run through the public API, all four modes): dump()/dumps() render and agree; that the optimizer keeps rule names/modifiers/tags of the original grammar (compared as trees with the Opt mirror).',
+            "Lean 4 proof: forest invariant through L0 + refinement L1 ⊑ L0 (C03) + simulation LG ≈ L1 (C01); " + T_MODEL),
+    "C07": ("core", "proof",
+            "Theorems parse_total / interp_terminates / parse_never_raises / modes_agree: for every rule table accepted by the decidable check WF.wellFormed (no left recursion incl. through implicit trivia - certified by a rank table -, no unbounded repetition over a nullable body, non-nullable WHITESPACE/COMMENT, no undefined reference), every defined start rule, every input and every start position inside it, there is a recursion budget from which on both Parser.parse (L1) and the generated parse() (LG) answer - Pairs or PestParsingError, never another exception (the models have explicit IndexError/UnboundLocalError/AssertionError/KeyError outcomes and they are proved unreachable) - and the two agree; the answer is a function of (grammar, rule, input, start position) (interp_deterministic; history independence of the real objects is C15). The run evaluates WF.wellFormed and the other hypotheses through the model on every grammar and on its optimized form (evidence hyp:*): the harness's own well-formedness filter is contained in it on all but a handful, which are counted. Checked on the implementation: all four modes on well-formed grammars - only PestParsingError escapes, the repeated call is equal, every parse ends within the time limit (a timeout is re-run with a 300 s limit before it is reported). Not a theorem: CPython's own recursion limit (the property excludes inputs beyond the budget), and termination of the optimized table when wellFormed rejects it although the original is accepted (then it rests on C02).",
+            "Lean 4 termination proof (progress measure + nullability/rank certificates) + no-exception proofs through L1 ⊑ L0 and LG ≈ L1; " + T_MODEL),
+    "C08": ("core", "proof",
+            'Theorems (L0, fuel-independent, every grammar/input/state): group_id, seq_assoc/seq_flatten, choice_assoc/choice_flatten, dup_choice, never_seq, never_notpred (NEVER = any literal that fails at every position of the input; under total implicit trivia, and pointwise without), extract_silent (new silent rule, fresh and unreferenced), closed under any number of simultaneous rewrites at any depth of any rule bodies (Cong, GrammarRel, rewrites_preserve_parse) and under chaining (GEquiv.trans); lifted to the interpreter model and the generated-code model (grammar_rewrites_preserve_interp / _gen: same verdict, same end position, same trees up to tags). Counter-examples proved in the file show which hypotheses are needed (nullable WHITESPACE, a() ~ c). Tags are excluded from the theorem because of the open finding tag-lost-on-backtrack (known_findings.txt). The same run is the metamorphic test on the implementation: rewrites at random sites of random grammars and of the bundled grammars (ASTs recovered from the real trees, printer round-trip checked), original vs rewritten in all four modes, and exact correspondence of every result with the models. Optimized modes rest on C02 for the step optimize(g) ~ g.',
+            "Lean 4 proof: big-step reading of L0 (Conv), simulation between two grammars (Sim.conv), congruence; lifted through L1 ⊑ L0 and LG ≈ L1; " + T_MODEL),
     "C09": ("stack", "proof",
             "Theorems (all histories, unbounded): the delta-encoded Stack model refines a full-copy stack (stack_refines, inv_apply, abs_apply), "
             "its asserts cannot fail, SnapshottingInt and ParserState.checkpoint/ok/restore refine full copies in lock-step (snapint_history, "
@@ -67,11 +64,9 @@ CHECKS = {
             "sequences to length 7/9 on Stack, 5/6 on ParserState, plus random long histories); the same run compares the implementation with "
             "a full-copy reference and yields the failing history as replay.",
             "Lean 4 refinement proof (invariant + abstraction function, induction over histories) + exhaustive differential correspondence"),
-    "C13": ("core", "other",
-            "Every failing parse of the run in all four modes: furthest position in range, listed names are rules/built-ins, "
-            "str()/detailed_message() render, error_context equals the C14 formula; exact correspondence of furthest position and key lists "
-            "with the L1/LG models; Lean theorems for error_context (total, equals line/col of p) are proved (Props/C13Text), fpos_in_range in "
-            "progress.", T_MODEL),
+    "C13": ("core", "proof",
+            'Theorems fpos_in_range / gen_fpos_in_range (every rule table, start rule, input, start position k <= len(input), fuel): the reported furthest-failure position is -1 (nothing recorded) or lies in [k, len(input)]; failure_names_known / gen_failure_names_known: every expected/unexpected key and every rule-stack entry of a failure names a rule of the table, a built-in or the fused SKIP rule; error_context_defined_on_failure / error_context_on_failure_is_linecol: error_context is defined at the reported position and shows its line and column (C14 formula); gen_fpos_agrees: generated code reports the same position as the interpreter. L1/LG are tied to the code by exact correspondence of furthest position and key lists on every failing parse of the run; the direct oracle checks position range, names, that str()/detailed_message() render and that error_context equals the C14 formula, in all four modes. Not a theorem: the rendering of str()/detailed_message() themselves (string formatting).',
+            "Lean 4 invariant proof (Bounded positions, known names) through every node of L1 and LG + LineCol theorems (C14); " + T_MODEL),
     "C14": ("text", "proof",
             "Theorems for all texts and offsets (induction over the text): Position.line_col equals the specification (1 + number of line "
             "breaks before p, 1 + distance from the last line break) on \\n-texts (line_col_spec), the specification is injective, Span.lines "
@@ -91,10 +86,9 @@ CHECKS = {
             "interpreter process, N threads on shared objects vs sequential results, and exact correspondence of every parse result of the "
             "history with the World model.",
             "Lean 4 invariant proof over histories of a process-level model + write-set monitor, fresh-process differential and thread stress on the implementation"),
-    "C16": ("core", "other",
-            "On SOI-free grammars in all four modes: parse(r,t,start_pos=k) equals parse(r,t[k:]) shifted by k (trees and failure positions), "
-            "and changing the characters before k changes nothing; every correspondence request of the run uses random k as well; theorem "
-            "shift_invariance in progress.", T_MODEL),
+    "C16": ("core", "proof",
+            'Theorems parse_shift / gen_parse_shift and no_lookbehind / gen_no_lookbehind (every SOI-free rule table incl. optimizer-made nodes, start rule, input, k <= len(input), fuel): parsing at start_pos = k equals parsing text[k:] at 0 shifted by k - same verdict, trees shifted, end position k further, furthest-failure position shifted (or both unset), same expected/unexpected keys and rule stack; and the result does not depend on the characters before k. Proved for the interpreter model L1 and directly for the generated-code model LG. The run evaluates SOI-freeness through the model on every grammar and its optimized form (evidence hyp:*:soifree). Checked on the implementation in all four modes: parse(r,t,start_pos=k) vs parse(r,t[k:]) shifted, prefix replaced, random k in every correspondence request. Not a theorem: that the optimizer keeps a table SOI-free (evaluated per grammar instead).',
+            "Lean 4 simulation proof between the two inputs (ShiftRel/ResRel through every node of L1 and LG); " + T_MODEL),
     "C18": ("pratt", "proof",
             "Theorems for all operator tables and all token streams: the model of the repaired parse_expr consumes every well-formed stream "
             "(pratt_consumes_all), yields the input (pratt_yield), returns a tree satisfying the binding-power specification Good (pratt_good), "
